@@ -5,13 +5,17 @@ from .. import rules_cli as RC
 LEVEL = "other"
 
 EXPLANATION = (
-    "Structural analysis of cvss_calculator.main: census of the add_argument calls; the version-selection expression "
-    "evaluated as a decision table over all 2^7 truthiness assignments of the options (iteration order resolved "
-    "statically); version -> class / heading / ratings decision tables over the attainable versions; exception "
-    "containment (constructor inside try/except CVSSError that prints the message, interactive entry inside "
-    "try/except (KeyboardInterrupt, EOFError), slot subscripts protected against IndexError); provenance of every "
-    "printed value (scores()[i] with severities()[i], clean_vector(), rh_vector(), json.dumps(as_json(sort=True, "
-    "minimal=True)) of the same object under -j)."
+    "Semantic analysis of cvss_calculator.main over symbolic command lines: main() is interpreted abstractly (exceptions "
+    "as control flow, path splitting where values of different shape meet) with argparse replaced by its specification "
+    "for the listed options (-2/-3/-4/-a/-n/-j absent or given, -v absent / empty / a valid / an invalid vector; anything "
+    "argparse could use to reject or re-read such a command line is a finding), the CVSSn constructors and the builder "
+    "by tokens, the accessors of the constructed object by opaque API values, print / json.dumps / sys.exit by "
+    "recorders, and the interactive input ending normally, with EOFError or with KeyboardInterrupt. For each of the 768 "
+    "command lines x endings the value graph is evaluated: nothing leaves main(), no non-zero exit, the class (and the "
+    "version asked interactively) is one the flags select, -a reaches the builder, every score slot of the class is "
+    "printed verbatim with its rating for v3/v4, clean_vector() and rh_vector() with default arguments, JSON of "
+    "as_json(sort=True, minimal=True) exactly with -j, the library's exception for an invalid vector. The interactive "
+    "builder itself is C16's analysis, discharged here."
 )
 
 
@@ -23,7 +27,18 @@ def run(ctx):
         "argparse's own messages and rejected argv are outside the modelled code",
         "accessors are total (C18)",
     ]
-    rows, summ = RC.check_c17(ctx, led)
+    # the semantic analysis over symbolic command lines decides; the idiom rules (one way of writing
+    # main()) are then an informational cross-check.  When main() cannot be interpreted the check
+    # stops as undecided (exit 2): neither the silence nor the complaints of the idiom rules decide.
+    from ..rules_cli_sem import check_cli_semantics
+    from ..rules_parse import InfoLedger
+    from ..srcmodel import AnalysisError
+
+    rows = check_cli_semantics(ctx, led)
+    try:
+        RC.check_c17(ctx, InfoLedger(led))
+    except AnalysisError as e:
+        led.info("C17.idioms", "cvss_calculator.main", "cvss/cvss_calculator.py", "idiom rules not applicable: %s" % e.message)
     # interactive entry is the builder: what main() scores without -v is the string it returns, an
     # exception it lets out is a traceback of the calculator, and end of input must surface as
     # EOFError (the only thing main() catches around it)
@@ -32,5 +47,5 @@ def run(ctx):
 
     check_c16(ctx, RelabelLedger(led, "C17.interactive", strip="C16."))
     RC.check_eof_source(ctx, led)
-    led.require_min("C17.version", rows, 64, "truth-table rows of the version selection")
+    led.require_min("C17.sem", rows, 700, "command lines x input endings decided")
     led.undecided("C17.argparse", "text produced by argparse itself and argv that argparse rejects")
